@@ -54,6 +54,82 @@ theorem level_iff (t : DTree) (op : LevelOp) (nt : String) (p q : Path) :
     levelCheck t op nt p q = true ↔ LevelSpec t op nt p q :=
   levelCheck_iff t op nt p q
 
+
+/-! ### document order is a strict partial order on positions, total up to ancestry
+(added: `before` is irreflexive, asymmetric and transitive for all paths; any two positions are
+related by before, after, or one lies inside the other — with `before_not_prefix` the four cases
+before / after / ancestor-or-self / descendant-or-self are exhaustive and before/after exclude the rest) -/
+theorem before_irrefl (p : Path) : isBefore p p = false := by
+  induction p with
+  | nil => rfl
+  | cons a p ih => simp [isBefore, ih]
+
+theorem before_asymm (p q : Path) (h : isBefore p q = true) : isBefore q p = false := by
+  induction p generalizing q with
+  | nil => simp [isBefore] at h
+  | cons a p ih =>
+    cases q with
+    | nil => simp [isBefore] at h
+    | cons b q =>
+      simp only [isBefore] at h ⊢
+      by_cases h1 : a < b
+      · have : ¬ b < a := by omega
+        simp [this, h1]
+      · by_cases h2 : b < a
+        · simp [h1, h2] at h
+        · simp [h1, h2] at h ⊢; exact ih q h
+
+theorem before_trans (p q r : Path) (h1 : isBefore p q = true) (h2 : isBefore q r = true) :
+    isBefore p r = true := by
+  induction p generalizing q r with
+  | nil => simp [isBefore] at h1
+  | cons a p ih =>
+    cases q with
+    | nil => simp [isBefore] at h1
+    | cons b q =>
+      cases r with
+      | nil => simp [isBefore] at h2
+      | cons c r =>
+        simp only [isBefore] at h1 h2 ⊢
+        by_cases hab : a < b
+        · by_cases hbc : b < c
+          · have : a < c := by omega
+            simp [this]
+          · by_cases hcb : c < b
+            · simp [hbc, hcb] at h2
+            · have : a < c := by omega
+              simp [this]
+        · by_cases hba : b < a
+          · simp [hab, hba] at h1
+          · simp [hab, hba] at h1
+            have hab' : a = b := by omega
+            subst hab'
+            by_cases hbc : a < c
+            · simp [hbc]
+            · by_cases hcb : c < a
+              · simp [hbc, hcb] at h2
+              · simp [hbc, hcb] at h2 ⊢; exact ih q r h1 h2
+
+/-- every pair of positions is related in exactly one of four ways -/
+theorem position_total (p q : Path) :
+    isBefore p q = true ∨ isAfter p q = true ∨ inTree p q = true ∨ inTree q p = true := by
+  induction p generalizing q with
+  | nil => right; right; right; simp [inTree]
+  | cons a p ih =>
+    cases q with
+    | nil => right; right; left; simp [inTree]
+    | cons b q =>
+      simp only [isAfter, isBefore]
+      by_cases h1 : a < b
+      · simp [h1]
+      · by_cases h2 : b < a
+        · simp [h2]
+        · have : a = b := by omega
+          subst this
+          have := ih q
+          simp [isAfter, inTree] at this ⊢
+          exact this
+
 /-! non-vacuity: concrete pairs incl. ancestor/descendant and identical ones -/
 example : isBefore [0, 1] [0, 2, 5] = true ∧ isBefore [0] [0, 1] = false ∧ isAfter [0, 1] [0] = false
     ∧ isAfter [1] [0, 3] = true ∧ isBefore [1] [1] = false := by decide
